@@ -333,6 +333,7 @@ def gmSuites : List Nat := [0xe013, 0xe053]
 def tlsSuiteTable : List (Nat × Bool × Bool × Bool × Bool) :=
   [(0xcca8, true, false, true, false), (0xcca9, true, true, true, false), (0xc02f, true, false, true, false),
    (0xc02b, true, true, true, false), (0xc030, true, false, true, false), (0xc02c, true, true, true, false),
+   (0xc027, true, false, true, true), (0xc013, true, false, false, false),
    (0xc023, true, true, true, true), (0xc009, true, true, false, false), (0xc014, true, false, false, false),
    (0xc00a, true, true, false, false), (0x009c, false, false, true, false), (0x009d, false, false, true, false),
    (0x003c, false, false, true, true), (0x002f, false, false, false, false), (0x0035, false, false, false, false),
